@@ -126,9 +126,11 @@ def reproduced(kind, out, bad):
     return False
 
 
-def run_cases(rep, prog, cases, deadline, prop, name):
+def run_cases(rep, prog, cases, deadline, prop, name, require=()):
     tot = dict(paths=0, queries=0, solver_s=0.0, cases=0)
     bads, inconc = [], []
+    cov = {}
+    conf_n = [0]
     for case in cases:
         if deadline and time.time() > deadline:
             inconc.append('time budget exhausted before case %r' % (case,))
@@ -136,16 +138,36 @@ def run_cases(rep, prog, cases, deadline, prop, name):
         res, st, fns, mods, inc = parallel_explore(prog, B.make_case(prog, case), deadline=deadline, max_paths=200000,
                                                    step_budget=600000)
         tot['paths'] += st['paths']
+        tot['nontrivial'] = tot.get('nontrivial', 0) + st.get('nontrivial', 0)
         tot['queries'] += st['queries']
         tot['solver_s'] += st['solver_s']
         tot['cases'] += 1
         rep.functions |= fns
         rep.models |= mods
+        if res.get('samples') and not inc and conf_n[0] < MAX_CONFORMANCE:
+            conf_n[0] += 1
+            msg = trace_conformance(res['samples'][0], prop)
+            if msg:
+                inconc.append('model/implementation disagreement on %s: %s' % (case_name(case), msg))
+            else:
+                rep.diff_vectors += 1
         if res.get('samples') and len(rep.samples) < 3:
-            rep.samples += res['samples'][:1]
+            smp = dict(res['samples'][0])
+            smp.pop('log', None)
+            rep.samples.append(smp)
         bads += res.get('bad', [])
+        for k, v in res.items():
+            if k.startswith('cov:'):
+                cov[k[4:]] = cov.get(k[4:], 0) + v
         inconc += ['%s: %s' % (case_name(case), x) for x in inc[:3]]
     tot['solver_s'] = round(tot['solver_s'], 2)
+    tot['witnesses'] = dict(sorted(cov.items()))
+    rep.witnesses.setdefault(name, {}).update(tot['witnesses'])
+    if not inconc and not bads:
+        # vacuity guard: every situation the obligation is about must have been reached by at least one path
+        for need in require:
+            if not any(re.search(need, k) and v > 0 for k, v in cov.items()):
+                inconc.append('vacuity: no explored path reached %r' % need)
     seen = set()
     for b in bads:
         probs = b.get('problems') or ['panic: %s in %s' % (b.get('msg'), b.get('where'))]
@@ -171,6 +193,53 @@ def run_cases(rep, prog, cases, deadline, prop, name):
     else:
         rep.add_obligation(name, 'holds', tot)
     return bads
+
+
+MAX_CONFORMANCE = 6
+
+
+def normalize_trace(ops):
+    """Storage trace -> comparable form: block hashes and block subdirectories are renamed by first appearance, runs of
+    block-subdirectory listings (issued concurrently by list_blocks) are sorted."""
+    hmap, out = {}, []
+    for v, p in ops:
+        m = re.match(r'^d/([0-9a-f]{3})(?:/([0-9a-f]{128}))?$', p)
+        if m:
+            if m.group(2):
+                h = hmap.setdefault(m.group(2), 'B%d' % len(hmap))
+                p = 'd/*/' + h
+            else:
+                p = 'd/*'
+        out.append((v, p))
+    res, run = [], []
+    for o in out:
+        if o == ('list_dir', 'd/*'):
+            run.append(o)
+            continue
+        res += run
+        run = []
+        res.append(o)
+    return res + run
+
+
+def trace_conformance(sample, prop):
+    """Replay one explored path natively with the same sizes/options/fault and compare the storage traces of the
+    backup under test.  Returns None when they agree, else a description of the first difference."""
+    bad = {'case': sample['case'], 'model': sample.get('model') or {}, 'fired': sample.get('fired'), 'log': sample.get('log', []), 'problems': []}
+    sc = scenario_from(bad)
+    sc['follow_up'] = False
+    out, path = runner.replay(sc, prop + '_conformance')
+    if out.get('panic'):
+        return 'native run panicked (%s)' % path
+    native = normalize_trace([(o[0], o[1]) for o in out.get('ops', []) if o[0] not in ('rewrite', 'follow_up')])
+    model = normalize_trace(sample['storage_trace'])
+    if sample.get('fired') and sample['fired'][3] in ('stop', 'empty_stop') and len(native) > len(model):
+        native = native[:len(model)]      # the native hook also logs the operation it stopped at
+    if native != model:
+        for i, (a, b) in enumerate(zip(native + [None] * len(model), model + [None] * len(native))):
+            if a != b:
+                return 'storage operation %d: implementation %r, model %r (%s)' % (i, a, b, path)
+    return None
 
 
 def path_role(p):
